@@ -726,6 +726,14 @@ class VerifyingBase(LookupBaseFallback):  # noqa F821
     # bumps its own '_generation' counter.  E.g., used by
     # zope.component.persistentregistry
 
+    # Until the first ``changed()`` there is nothing to compare with;
+    # ``_verify`` then takes that as "changed" (as the C implementation
+    # does). A registry that is being re-initialized (``rebuild()``)
+    # exposes its new lookup object to other threads before it calls
+    # ``changed()``.
+    _verify_ro = ()
+    _verify_generations = None
+
     def changed(self, originally_changed):
         LookupBaseFallback.changed(self, originally_changed)  # noqa F821
         self._verify_ro = self._registry.ro[1:]
